@@ -703,7 +703,9 @@ def gen_scenario(rng, profile="mixed"):
         if rng.random() < .3:
             ops.append(("is",))
         steps = server_script(rng, cfg, kind == "component", kind == "raw")
-        if kind == "raw" and rng.random() < .8:
+        if kind == "raw" and rng.random() < .8 and any(o[0] == "jid" for o in ops):
+            # (xmpp_conn_open_stream_default() on an object that never connected builds the tag from a NULL
+            #  domain; user misuse outside the properties, see DESIGN.md)
             ops.append(("openstream",))
             ops.append(("run", None))
         # perturb
@@ -905,10 +907,14 @@ class Observer:
         #    for stream-oriented connections from the iteration in which the first header is written)
         if wrote_hdr:
             att["reading"] = True
+        serr_before = att["serr"]
         if att["alive"] and att["reading"] and att["queue"]:
             rd = att["queue"].pop(0)
             if isinstance(rd, tuple):
                 self._receive(att, rd[1])
+        # a socket closed while the attempt goes on (next connect candidate): what was queued for it is gone
+        if "X" in seg and not any(t.startswith("E:disconnect") for t in seg):
+            att["queue"] = []
         # raw connections: reading starts in the iteration after the one that reported RAW_CONNECT
         if "E:raw_connect" in seg:
             att["reading"] = True
@@ -938,7 +944,8 @@ class Observer:
                 att["alive"] = False
                 m = re.match(r"E:disconnect\((-?\d+)(?:,se=(\d+),(\d))?\)", t)
                 rep = (int(m.group(2)), int(m.group(3))) if m.group(2) is not None else None
-                if att["kind"] != "raw" and rep != att["serr"]:
+                # (a disconnect raised by a timed handler precedes this iteration's read: accept both views)
+                if att["kind"] != "raw" and rep != att["serr"] and rep != serr_before:
                     self.viol["C13"].append("stream error reported %s but the server sent %s" % (rep, att["serr"]))
             elif t in ("H:user", "H:timed"):
                 if not up or not att["alive"]:
